@@ -1045,6 +1045,7 @@ func (f *FuncCtx) litFields(st *State, x *ast.CompositeLit, s *types.Struct, pre
 				continue
 			}
 		}
+		f.sliceAliasCheck(st, ft, ve)
 		v := f.implicit(st, f.expr(st, ve), f.typeOf(ve), ft)
 		vals[prefix+name] = v
 	}
